@@ -164,6 +164,8 @@ def make_image(spec):
     a = np.round(g.uniform(0.05, 1.0, size=full) * 128) / 128
     if spec.get("roll"):
         a = np.roll(a, spec["roll"], axis=0)  # same multiset of values: equal total mass
+    if spec.get("nearly"):
+        a = a * (1.0 + 2.0 ** -22)  # mass defect of 2.4e-7 relative: inside the library's tolerance, far beyond round-off
     dt = spec.get("dtype", "float64")
     if dt == "uint8":
         a = (a * 255).astype(np.uint8)
@@ -563,6 +565,7 @@ class C17Engine(Engine):
         for i in range(2):
             sources[f"m{i}"] = {"kind": "image", "cls": fam_cls, "shape": base_shape, "dtype": "float64", "id": mid,
                                 "roll": i, "dims": [float(base_shape[0]), 2.0 * base_shape[1]], "time": "none"}
+        sources["m2"] = {**sources["m1"], "nearly": True}  # matches m0's mass within the library's tolerance only
         for i in range(cfg.randint(2, 4)):
             sources[f"i{i}"] = self._img_spec(r)
         sources["wimg"] = self._img_spec(r, {"cls": "Image", "shape": [base_shape[0] * cfg.choice([1, 1, 2]), base_shape[1] * cfg.choice([1, 2])],
@@ -829,7 +832,7 @@ class C17Engine(Engine):
                         desc[out] = dict(desc[a])
             return op
         if kind == "distance":
-            a, b = ("m0", "m1") if r.random() < 0.5 else ("m1", "m0")
+            a, b = r.choice([("m0", "m1"), ("m1", "m0"), ("m0", "m2"), ("m2", "m0")])
             if r.random() < 0.15:
                 cands = sorted(n for n, d in desc.items() if fam(d) and d["dtype"] in ("float64",))
                 a, b = r.sample(cands, 2)
